@@ -1018,7 +1018,8 @@ class Engine:
                 old = st.heap[v.n].seq
                 st.heap[v.n] = HList(self.fresh_like_seq(st, old, f"{n}@{tag}"))
             elif isinstance(v, Ref):
-                raise Unsupported("havoc of dict in loop")
+                # a dict mutated in a loop becomes an arbitrary opaque mapping
+                st.env[n] = self.fresh(f"{n}@{tag}", U)
 
     def fresh_like(self, st, v, name):
         if is_z3(v):
@@ -1781,7 +1782,8 @@ class Engine:
     # ---- calls
     def e_Call(self, node, st):
         if any(isinstance(a, ast.Starred) for a in node.args):
-            raise Unsupported("star-args in call")
+            # f(a, *rest): the unpacked iterable is passed on as one opaque extra argument
+            node = ast.Call(func=node.func, args=[a.value if isinstance(a, ast.Starred) else a for a in node.args], keywords=node.keywords, lineno=getattr(node, "lineno", 0), col_offset=0)
         fname = ast.unparse(node.func)
         out = []
         # evaluate callee (for bound methods), args, kwargs left to right
